@@ -118,6 +118,8 @@ def m1(rep, w):
         for s in bb['s']:
             rr = s.get('r', {})
             if rr.get('rv') == 'agg' and rr.get('adt') == 'yarel::object::ObjModule':
+                if 'imported' not in rr['fn']:
+                    raise Broken('C14', 'anchor', 'ObjModule has no `imported` field: whether a module is still being loaded is kept some other way, which M1 cannot judge')
                 k = op_const(rr['ops'][rr['fn'].index('imported')])
                 init = k.get('v') if k else None
     r.check(init == 0, 'a new module starts with imported = false', 'ObjModule::new initialises imported to %s' % init, nm.loc())
